@@ -38,8 +38,14 @@ def set_rules():
             "twin": {"translated": done, "skipped": skipped}}
 
 
+def set_attacks():
+    twin, done, skipped = spec_twin(["spec/view.rs", "spec/rules_base.rs", "spec/attack.rs"])
+    body = "use crate::board::constants::*;\n" + _read("kani/oracle.rs") + twin + _read("kani/attacks.rs")
+    return {"package": "inkayaku_board", "append_to": "board/src/board.rs", "module": body, "twin": {"translated": done, "skipped": skipped}}
+
+
 def set_tables():
-    body = _read("kani/tables.rs")
+    body = _read("kani/oracle.rs") + _read("kani/tables.rs")
     for kind, table, dirs in (("rook", "ROOK_MAGICS", "ROOK_DIRS"), ("bishop", "BISHOP_MAGICS", "BISHOP_DIRS")):
         for sq in range(64):
             body += f"""
@@ -75,6 +81,7 @@ def set_ucimove():
 
 
 SETS = {
+    "attacks": set_attacks,
     "ucimove": set_ucimove,
     "history": set_history,
     "square": set_square,
@@ -96,6 +103,11 @@ def _table_harnesses():
 
 HARNESSES = {
     "tables": _table_harnesses(),
+    "attacks": {
+        "oracle_rook_is_rook_reach": {"complete": True, "note": "symbolic square, target and 64-bit occupancy; loops bounded by 64 (quantifier over squares) and the board width, unwinding assertions on"},
+        "oracle_bishop_is_bishop_reach": {"complete": True, "note": "as above, diagonals"},
+        "oracle_steps_are_step_predicates": {"complete": True, "note": "knight, king, white and black pawn step oracles vs the step predicates, symbolic squares"},
+    },
     "ucimove": {
         "uci_move_from_str_ascii_le5": {"complete": False, "bound": "ASCII strings of length <= 5 (every well-formed move text has length 4 or 5)", "note": "real UciMove::from_str incl. str::chars decoding and the error closures"},
     },
